@@ -38,6 +38,7 @@ type ruleD struct {
 	Disr    string   `json:"disr"` // pass | deny
 	Extra   []string `json:"extra,omitempty"`
 	Chain   []string `json:"chain,omitempty"` // targets of the chained link
+	Op      string   `json:"op,omitempty"`    // operator (default @streq x)
 }
 
 func base() []ruleD {
@@ -47,6 +48,8 @@ func base() []ruleD {
 		{ID: 3, Targets: []string{"ARGS"}, Tag: "t2", Disr: "pass"},
 		{ID: 4, Targets: []string{"ARGS:b"}, Tag: "t2", Msg: "m2", Disr: "pass", Chain: []string{"ARGS:c"}},
 		{ID: 5, Targets: []string{"ARGS_GET:c", "REQUEST_COOKIES:c", "REQUEST_COOKIES:a"}, Disr: "pass"},
+		// a counting target: removing the counted key leaves the count 0, which the operator still sees
+		{ID: 6, Targets: []string{"&ARGS:a"}, Disr: "pass", Op: "@eq 0"},
 	}
 }
 
@@ -65,7 +68,11 @@ func (r ruleD) text() string {
 	if r.Chain != nil {
 		acts = append(acts, "chain")
 	}
-	s := fmt.Sprintf("SecRule %s \"@streq x\" \"%s\"\n", strings.Join(r.Targets, "|"), strings.Join(acts, ","))
+	op := r.Op
+	if op == "" {
+		op = "@streq x"
+	}
+	s := fmt.Sprintf("SecRule %s \"%s\" \"%s\"\n", strings.Join(r.Targets, "|"), op, strings.Join(acts, ","))
 	if r.Chain != nil {
 		s += fmt.Sprintf("  SecRule %s \"@streq x\" \"t:none\"\n", strings.Join(r.Chain, "|"))
 	}
@@ -240,12 +247,13 @@ func directives(thorough bool) []directive {
 	for _, msg := range []string{"m1", "m2"} {
 		ds = append(ds, directive{Kind: "removeByMsg", Msg: msg})
 	}
+	ds = append(ds, directive{Kind: "updateTargetById", IDs: "6", Arg: "!ARGS:a"}, directive{Kind: "updateTargetById", IDs: "5-6", Arg: "!ARGS:a"})
 	for _, ids := range []string{"3", "2-3"} {
 		ds = append(ds, directive{Kind: "updateTargetById", IDs: ids, Arg: "!ARGS:/^a/", Arg2: "!ARGS:/^b/"},
 			directive{Kind: "updateTargetById", IDs: ids, Arg: "!ARGS:/^b/", Arg2: "!ARGS"})
 	}
 	// run-time counterparts
-	for _, pos := range []string{"p1", "before", "after"} {
+	for _, pos := range []string{"p1", "before", "after", "p1-last"} {
 		if pos != "after" {
 			// a removed rule must not count for a preceding skip:N either
 			ds = append(ds, directive{Ctl: true, Kind: "removeById", IDs: "2", Pos: pos, SkipBase: true})
@@ -274,6 +282,10 @@ func directives(thorough bool) []directive {
 			}
 		}
 		ds = append(ds, directive{Ctl: true, Kind: "removeTarget", Tag: "t2", Arg: "ARGS:/^a/", Arg2: "ARGS:/^b/", Pos: pos})
+		// rule 6 counts ARGS:a: with the key (or the collection) removed it counts 0 and fires
+		for _, tgt := range []string{"ARGS:a", "ARGS", "ARGS:b"} {
+			ds = append(ds, directive{Ctl: true, Kind: "removeTarget", IDs: "6", Arg: tgt, Pos: pos})
+		}
 		// rule 5 reads three collection/key pairs: the removal names exactly one of them
 		for _, tgt := range []string{"ARGS_GET:c", "REQUEST_COOKIES:c", "REQUEST_COOKIES:a", "ARGS_GET", "REQUEST_COOKIES"} {
 			ds = append(ds, directive{Ctl: true, Kind: "removeTarget", IDs: "5", Arg: tgt, Pos: pos})
@@ -320,7 +332,9 @@ func (d directive) ctlConfigs() (string, string) {
 	rules := d.base()
 	phase, idx := 2, 0
 	switch d.Pos {
-	case "p1":
+	case "p1", "p1-last":
+		// p1-last: the phase-1 ctl rule is written after all the rules it affects (evaluation goes phase by phase,
+		// so it still runs before every phase-2 rule)
 		phase, idx = 1, 0
 	case "before":
 		idx = 0
@@ -337,10 +351,13 @@ func (d directive) ctlConfigs() (string, string) {
 				sb.WriteString("SecMarker MID\n")
 				marked = true
 			}
-			if withCtl && r.ID == firstIDAt(idx) {
+			if withCtl && r.ID == firstIDAt(idx) && d.Pos != "p1-last" {
 				sb.WriteString(ctlRule)
 			}
 			sb.WriteString(r.text())
+		}
+		if withCtl && d.Pos == "p1-last" {
+			sb.WriteString(ctlRule)
 		}
 		if d.TagBy != "" {
 			// the tag reaches the rules only now, after they were added
